@@ -52,5 +52,16 @@ def handle(case):
                 row["items"] = [nd.enc_array(x[i, ...].to_numpy()) for i in range(a.shape[0])] if a.ndim else None
             except BaseException as e:  # noqa
                 row["items"] = "!" + type(e).__name__
+            # the same protocols after the array has been re-shaped IN PLACE (its extent was queried before)
+            if a.ndim >= 1 and a.size > 0:
+                try:
+                    y = ndx.asarray(a)
+                    _ = (len(y), y.shape, y.ndim)
+                    ndx.reshape(y, [1, -1], copy=False)
+                    ref2 = a.reshape(1, -1)
+                    row["after_inplace_reshape"] = {"ndx_len": obs(lambda: len(y)), "np_len": obs(lambda: len(ref2)),
+                                                    "ndx_iter": obs(it(y, True)), "np_iter": obs(it(ref2, False))}
+                except BaseException as e:  # noqa
+                    row["after_inplace_reshape"] = {"error": type(e).__name__ + ": " + str(e)[:120]}
         rows.append(row)
     return {"rows": rows}
